@@ -24,7 +24,25 @@ DENY_BUILTINS = {"getattr", "setattr", "delattr", "hasattr", "eval", "exec", "co
                  "staticmethod", "property", "format", "print", "help", "exit", "quit", "callable", "isinstance",
                  "issubclass", "next", "repr", "reversed", "range", "pow", "divmod"}
 # public methods of reachable builtin types that traverse attributes named inside their *data* argument
-ATTRIBUTE_TRAVERSING_METHODS = {"str": {"format", "format_map"}}
+ATTRIBUTE_TRAVERSING_METHODS = {
+    "str": {
+        "format": "string values are reachable (string literals; `str` is whitelisted) and `format` does not start with an underscore, so "
+                  "`'{0._secret}'.format(obj)` is allowed: str.format reads the attribute named in the format string, including private ones",
+        "format_map": "string values are reachable (string literals; `str` is whitelisted) and `format_map` does not start with an underscore, so "
+                      "`'{0._secret}'.format_map(obj)` is allowed: str.format_map reads the attribute named in the format string, including private ones",
+        "translate": "`'abc'.translate(K)` subscripts its table argument itself: for a class K CPython reads K.__class_getitem__ (and calls it "
+                     "if defined), although get_item refuses `K[97]` - the refusal covers the `[` and `?:` operators only",
+    },
+    "property": {
+        "getter/setter/deleter": "a class's public @property is reachable as `K.size` (a property object is ordinary data to get_member); its public "
+                                 "methods getter / setter / deleter copy `__doc__` from their argument: `K.size.getter(obj)` reads obj.__doc__",
+    },
+    "method": {
+        "repr": "`str(obj.method)`, `ascii([obj.method])`, `'%s' % obj.method` and the evaluator's own error texts format a bound method; "
+                "CPython's method_repr reads __qualname__ and __name__ of the wrapped callable (any callable object can be wrapped by a "
+                "descriptor returning types.MethodType)",
+    },
+}
 
 
 def r19a(ctx):
@@ -342,13 +360,12 @@ def r19e(ctx, names):
         if ty == "str" and not reachable_str:
             continue
         for meth in sorted(meths):
-            if f"'{meth}'" in src or f'"{meth}"' in src:
+            needles = [x for part in meth.split("/") for x in (f"'{part}'", f'"{part}"')]
+            closed = any(x in src for x in needles) if ty != "method" else ("MethodType" in src and "result" in src)
+            if closed:
                 ctx.proved("R19e", f, "get_member", gm.node, f"{ty}.{meth}", f"get_member has a rule for {ty}.{meth}")
             else:
-                ctx.violation("R19e", f, "get_member", gm.node, f"{ty}.{meth}",
-                              f"string values are reachable (string literals; `str` is whitelisted) and `{meth}` does not "
-                              f"start with an underscore, so `'{{0._secret}}'.{meth}(obj)` is allowed: {ty}.{meth} reads "
-                              f"the attribute named in the format string, including private ones")
+                ctx.violation("R19e", f, "get_member", gm.node, f"{ty}.{meth}", meths[meth])
 
 
 # Operators whose CPython implementation reads private attributes of an operand on its own (frozen table; each line confirmed by a
